@@ -260,11 +260,11 @@ def _slice(seg, ctx):
             if -n <= a < n:
                 return [Ctx(VList([kids[a]]), None, None, None)]
             raise Unspecified("identical slice bounds out of range")
-        if 0 <= a <= b <= n:
-            return [Ctx(VList(kids[a:b]), None, None, None)]
-        if -n <= a <= b <= -1:
-            return [Ctx(VList(kids[a:b]), None, None, None)]
-        raise Unspecified("slice bounds outside 0<=a<=b<=len / -len<=a<=b<0")
+        # README: start inclusive, stop exclusive, "either or both can be
+        # negative, causing the elements to be selected from the end of the
+        # Array" - i.e. the positions a Python slice names; elements between
+        # them in document order, each once (none when stop precedes start).
+        return [Ctx(VList(kids[a:b]), None, None, None)]
     if is_map(node):
         if isinstance(a, int):
             a, b = str(a), str(b)
